@@ -117,3 +117,33 @@ Theorem C12_abort_refuted_old_recheck :
        quiescent s = true /\ w_parked s = true /\ connected s = false /\ in_map s = false.
 Proof. exact abort_refuted_old_recheck. Qed.
 Print Assumptions C12_abort_refuted_old_recheck.
+
+(* ---------------------------------------------------------------------------------------------
+   Per-buffer memory bound at BYTE level (Model/ChanOut.v over the buffer model of C17; proofs in
+   Proof/ChanOutBound.v).  The interleaving model above bounds the TOTAL backlog by making the
+   producer wait; this part is the reason write_soon rotates to a fresh OverflowableBuffer once
+   current_outbuf_count reaches outbuf_high_watermark ("to avoid it growing unbounded"): for every
+   configuration, every history of write_soon(bytes of at most W bytes), write_soon(file buffer) and
+   _flush_some calls, and every socket behaviour, every OverflowableBuffer in self.outbufs holds at most
+   max(outbuf_high_watermark - 1, 0) + W bytes and current_outbuf_count stays within the same bound
+   (file-wrapper buffers are the application's files, not memory of the server).  The bound is
+   attained (C12_buffer_bound_attained). *)
+From WV Require Model.Buffers Model.ChanOut Spec.Fifo Proof.ChanOut Proof.ChanOutBound.
+Module CO := WV.Model.ChanOut.
+Module COP := WV.Proof.ChanOut.
+Module COB := WV.Proof.ChanOutBound.
+
+Theorem C12_buffer_rotation_bound : forall (c : CO.cfg) (W : Z) (ps : list CO.cop),
+  COP.cfg_ok c -> (0 <= W)%Z -> Forall COP.cop_ok ps -> Forall (COB.cop_small W) ps ->
+  let ch := fst (CO.crun c CO.chan_new ps) in
+  Forall (COB.ob_bounded (COB.bnd c W)) (CO.outbufs ch) /\
+  (0 <= CO.current_outbuf_count ch <= COB.bnd c W)%Z.
+Proof. exact COB.out_buffers_bounded_new. Qed.
+Print Assumptions C12_buffer_rotation_bound.
+
+Theorem C12_buffer_bound_attained :
+  let r := fst (CO.crun COP.ex_cfg CO.chan_new
+                  [CO.CWrite (CO.WBytes [1;2;3]%N) []; CO.CWrite (CO.WBytes [4;5;6]%N) []]) in
+  map (fun b => WV.Spec.Fifo.q_len (COP.babs b)) (CO.outbufs r) = [6%Z] /\ COB.bnd COP.ex_cfg 3 = 6%Z.
+Proof. exact COB.bound_attained. Qed.
+Print Assumptions C12_buffer_bound_attained.
